@@ -172,6 +172,17 @@ CHECKS = {
             "the sandbox runs as root: permission bits cannot deny, EISDIR / ENOTDIR / pre-existing files / the wa.write hook stand in; the "
             "enumeration is complete only over fault subsets of <= 4 eligible logs, the rest is sampled",
             "DESIGN.md §4 C19"),
+    "C20": ("exploration",
+            "runtime monitoring: differential oracle over the three response encodings, decoded by independent readers (python json, arrow-ipc StreamReader), for generated result sets fed to the real QueryResponseWriter (vunit) and for real engine answers dispatched once per renderer",
+            "Generated schemas over every logical type x batches of typed, null, boundary and foreign-typed cells x duplicate event ids at batch "
+            "edges / interior x LIMIT/OFFSET x streaming batch sizes {default,0,1,2,3} (one process each) are written through JsonRenderer, "
+            "UnixRenderer and ArrowRenderer; engine histories are queried (selection, RETURN, aggregates, PER, REPLAY, SHOW, failing commands) "
+            "once per renderer in memory / L0 / compacted / restart layouts. Column names, row counts, the announced row_count, every cell and "
+            "error status codes must agree.",
+            "engine answers are compared as multisets (three separate executions); LIMIT queries are only driven through the direct monitor; "
+            "five cell families are known findings (Arrow timestamp unit, non-finite floats, JSON re-parsing of strings, foreign-typed cells, "
+            "numeric cells of String-typed result columns)",
+            "DESIGN.md §4 C20"),
 }
 
 PENDING_REASON = "check not built yet in this session (see DESIGN.md §10 for the order); no claim is made"
